@@ -56,16 +56,17 @@ def classify_tagged(msg, metas):
 def classify_source(o, msg):
     """Known-finding key for a C03 rejection that is explained by a construct of the source network (tags of
     netgen_ext.source_tags) together with the shape of the rejection, or None.
-    * PACK of rank-3 operands whose first dimension is > 1 along an inner axis gives a rank-4 result with batch > 1; the
-      operator is accelerated (constraint_batch_size looks at the operands only) and the NPU operations that assemble the
-      result program height/width/depth of batch 0 only, so a later CPU operator (or the subgraph output) finds the rest
-      of the tensor undefined or holding an older tensor.
+    * npu-box-batch>1: an accelerated operation whose 4-D box has batch > 1. PACK of rank-3 operands whose first dimension
+      is > 1 along an inner axis gives a rank-4 result with batch > 1 (constraint_batch_size looks at the operands only);
+      SPLIT / SPLIT_V / UNPACK / STRIDED_SLICE / SLICE are exempt from the batch-size constraint, so a rank-4 operand with
+      batch > 1 cut along an inner axis is read in boxes with batch > 1. The NPU operations program height / width / depth
+      of batch 0 only, so the rest of the result is never written: a later reader finds undefined or older bytes.
     * STRIDED_SLICE with new_axis_mask: TFLite indexes begin/end/strides by *specification* position (the entry at a new-axis
       position is ignored); tflite_model_semantic._get_slice_offsets indexes them by *input* dimension, so with a new axis
       that is not the last entry the slice read by the consumer is a different one."""
     tags = o.get("src_tags") or []
-    if "pack-ofm-batch>1" in tags and re.search(r"step \d+ CPU \S+: byte \d+ of region \d+: expected tensor", msg):
-        return "pack-result-with-batch>1-only-batch-0-written"
+    if "npu-box-batch>1" in tags and re.search(r"(step \d+ CPU \S+|op \d+ IFM2?): byte \d+ of region \d+: expected tensor", msg):
+        return "accelerated-box-with-batch>1-only-batch-0-processed"
     if "strided-slice-new-axis-not-trailing" in tags and re.search(r"op \d+ IFM: byte", msg):
         return "strided-slice-new-axis-mask-begin-end-indexed-by-input-dimension"
     return None
